@@ -111,7 +111,11 @@ func failClass(err error) (class string, skip string) {
 	case errors.As(err, &sl):
 		return "non-termination", ""
 	case errors.As(err, &mf):
-		return "malformed-output", ""
+		msg := mf.What
+		if i := strings.Index(msg, ": "); i >= 0 && strings.HasPrefix(msg, "line ") {
+			msg = msg[i+2:]
+		}
+		return "malformed-output:" + errClass(msg), ""
 	}
 	return "exec-error:" + errClass(err.Error()), ""
 }
@@ -280,6 +284,11 @@ func glslBackend() *semBackend {
 
 // semProgram checks one executable case against one backend under all configs within d deviations.
 func semProgram(r *explore.Run, be *semBackend, p *prog, d int) {
+	semProgramKeyed(r, be, p, d, sigClass(p.Sig))
+}
+
+// semProgramKeyed is semProgram with an explicit construct class for violation keys.
+func semProgramKeyed(r *explore.Run, be *semBackend, p *prog, d int, sc string) {
 	c := p.Case
 	if c == nil || c.NoExec {
 		return
@@ -299,7 +308,6 @@ func semProgram(r *explore.Run, be *semBackend, p *prog, d int) {
 		r.Skip("front end rejected/panicked (belongs to C08/C10)")
 		return
 	}
-	sc := sigClass(p.Sig)
 	for _, cfg := range be.configs(d) {
 		r.Count("evaluations", int64(c.Groups[0]*c.Groups[1]*c.Groups[2]))
 		r.Count("executions", 1)
